@@ -213,6 +213,92 @@ theorem runPool_ledger (P : Params) (p : Pool) (steps : List Step) :
       | none => rw [stepPool_emit_none P p i he]
       | some e => rw [stepPool_emit_some P p i e he]
 
+/-- the ticket of every arrival, by replaying the schedule: the overflow 503 exactly when the task queue was at capacity at that
+    arrival, what `processHttpRequest` issues otherwise -/
+def ticketsOf (P : Params) : Pool → List Step → List (Nat × List Cmd)
+  | _, [] => []
+  | p, s :: rest =>
+    (match s with
+     | .arrive sid d => [(sid, if queuedCount p.tasks ≥ P.qcap then overflowCmds else P.respond sid d)]
+     | _ => []) ++ ticketsOf P (stepPool P p s) rest
+
+theorem runPool_cons (P : Params) (p : Pool) (s : Step) (rest : List Step) :
+    runPool P p (s :: rest) = runPool P (stepPool P p s) rest := rfl
+
+def ticketOfStep (P : Params) (p : Pool) : Step → List (Nat × List Cmd)
+  | .arrive sid d => [(sid, if queuedCount p.tasks ≥ P.qcap then overflowCmds else P.respond sid d)]
+  | _ => []
+
+theorem ticketsOf_cons (P : Params) (p : Pool) (s : Step) (rest : List Step) :
+    ticketsOf P p (s :: rest) = ticketOfStep P p s ++ ticketsOf P (stepPool P p s) rest := by
+  cases s <;> rfl
+
+theorem stepPool_ledger (P : Params) (p : Pool) (s : Step) :
+    (stepPool P p s).ledger = p.ledger ++ flattenTickets (ticketOfStep P p s) := by
+  cases s with
+  | arrive sid data =>
+    by_cases hq : queuedCount p.tasks ≥ P.qcap
+    · rw [stepPool_arrive_full P p sid data hq]; simp [ticketOfStep, flattenTickets, hq]
+    · rw [stepPool_arrive_ok P p sid data hq]; simp [ticketOfStep, flattenTickets, hq]
+  | pick =>
+    by_cases hr : runningCount p.tasks < P.w
+    · rw [stepPool_pick_yes P p hr]; simp [ticketOfStep, flattenTickets]
+    · rw [stepPool_pick_no P p hr]; simp [ticketOfStep, flattenTickets]
+  | emit i =>
+    cases he : (emitAt p.tasks i).1 with
+    | none => rw [stepPool_emit_none P p i he]; simp [ticketOfStep, flattenTickets]
+    | some e => rw [stepPool_emit_some P p i e he]; simp [ticketOfStep, flattenTickets]
+
+theorem runPool_ledger_eq (P : Params) (p : Pool) (steps : List Step) :
+    (runPool P p steps).ledger = p.ledger ++ flattenTickets (ticketsOf P p steps) := by
+  induction steps generalizing p with
+  | nil => simp [runPool, ticketsOf, flattenTickets]
+  | cons s rest ih =>
+    rw [runPool_cons, ih, stepPool_ledger, ticketsOf_cons]
+    simp [flattenTickets, List.append_assoc]
+
+theorem ticketsOf_tickets (P : Params) (p : Pool) (steps : List Step) : Tickets P (arrivals steps) (ticketsOf P p steps) := by
+  induction steps generalizing p with
+  | nil => exact .nil
+  | cons s rest ih =>
+    cases s with
+    | arrive sid data =>
+      simp only [arrivals, ticketsOf, List.singleton_append]
+      refine .cons ⟨rfl, ?_⟩ (ih _)
+      by_cases hq : queuedCount p.tasks ≥ P.qcap
+      · right; simp [hq]
+      · left; simp [hq]
+    | pick => simpa [arrivals, ticketsOf] using ih (stepPool P p .pick)
+    | emit i => simpa [arrivals, ticketsOf] using ih (stepPool P p (.emit i))
+
+/-- no overflow: every ticket is what `processHttpRequest` issues for that request -/
+theorem ticketsOf_noOverflow (P : Params) (p : Pool) (steps : List Step) (h : NoOverflow P p steps) :
+    ticketsOf P p steps = (arrivals steps).map (fun a => (a.1, P.respond a.1 a.2)) := by
+  induction steps generalizing p with
+  | nil => rfl
+  | cons s rest ih =>
+    obtain ⟨h1, h2⟩ := h
+    cases s with
+    | arrive sid data =>
+      have hq : ¬ queuedCount p.tasks ≥ P.qcap := by
+        have : queuedCount p.tasks < P.qcap := h1
+        omega
+      simp [ticketsOf, arrivals, hq, ih _ h2]
+    | pick => simpa [ticketsOf, arrivals] using ih _ h2
+    | emit i => simpa [ticketsOf, arrivals] using ih _ h2
+
+theorem proj_flattenTickets (sid : Nat) (ts : List (Nat × List Cmd)) :
+    proj sid (flattenTickets ts) = (ts.filter (fun t => t.1 == sid)).flatMap (fun t => t.2) := by
+  induction ts with
+  | nil => rfl
+  | cons t ts ih =>
+    have ih' : proj sid (List.flatMap (fun t => tag t.1 t.2) ts) = _ := ih
+    by_cases h : t.1 = sid
+    · subst h
+      simp [flattenTickets, proj_append, proj_tag_same, ih']
+    · have hb : (t.1 == sid) = false := by simpa using h
+      simp [flattenTickets, proj_append, proj_tag_ne sid t.1 t.2 h, ih', hb]
+
 /-! ### O3 under `OneInFlight` -/
 
 /-- per-session order invariant -/
